@@ -18,6 +18,7 @@ import json
 import logging
 import os
 
+from gen import c05_productions
 from gen import c16_selconst
 from harness import c16_gen as g
 from lib.framework import Check, enc, time_limit
@@ -167,8 +168,12 @@ class C16(Check):
         'default preferences; tied to the source by the differential correspondence of this run on identical token lists',
         'translator tools/gen/c16_selconst.py (class Constants, New.productions, the name tables): read with ast, '
         'cross-checked against the live objects in this run',
-        'the tokenizer is not modelled: both sides receive the same token lists; that the rendered text of the '
-        'theorems\' token lists tokenizes to those lists is exercised by the oracle (text -> tokens -> selector)',
+        'text level (T16.4): the tokenizer model lean/CssVerif/Model/Tok.lean of C05 (tokenize2.py, tables '
+        'Gen/C05Productions.lean regenerated and cross-checked by this check too) in front of the selector model; for plain '
+        'spellings tokenize_plain is a theorem, for every generated text the model pipeline text -> tokens -> selector is '
+        'compared with the real tokenizer and Selector (seltext stream)',
+        'attachment (T16.5): serItems under the sheet\'s effective namespaces, compared with the attached selectorText for '
+        'sheets with the same / renamed / fewer / other-default / extra @namespace declarations (attach stream)',
     )
     assumptions = (
         'str.lower() is ASCII case folding on the values the model normalises (pseudo names, `not(`); selectors with '
@@ -181,11 +186,22 @@ class C16(Check):
             'namespace environments) rendered under independent spelling choices (white space, comments, case, '
             'backslash escapes, quote style), tokenized by the real tokenizer; malformed stream: token-level '
             'mutations of those and soups of tokenized fragments; synthetic stream: hand-made tokens that reach the '
-            'partial Python operations; list stream: random set/append/replace/delete histories. ' + NONTRIVIAL_NOTE)
+            'partial Python operations; list stream: random set/append/replace/delete histories; text streams: every '
+            'grammar case once more as text through the tokenizer model (text, seltext); attach stream: 35 % of the accepted '
+            'grammar cases put as a rule object into a sheet with varied @namespace declarations. ' + NONTRIVIAL_NOTE)
 
     # ------------------------------------------------------------------------------------------
     def translate(self, ctx):
-        return {c16_selconst.OUT: c16_selconst.generate(ctx.repo)}
+        # the text-level theorems (T16.4) are about the tokenizer model: its generated tables are regenerated too
+        d, text = c05_productions.build(ctx.repo)
+        try:
+            problems = c05_productions.crosscheck(d)
+        except Exception as e:                          # noqa: BLE001
+            problems = ['cross-check impossible: %r' % (e,)]
+        ctx.notes['tokenizer_tables_crosscheck'] = problems or 'ok'
+        if problems:
+            raise c05_productions.TranslateError('; '.join(problems))
+        return {c16_selconst.OUT: c16_selconst.generate(ctx.repo), 'CssVerif/Gen/C05Productions.lean': text}
 
     def run(self, ctx):
         im = Impl()
@@ -201,6 +217,21 @@ class C16(Check):
         phase(self.list_stream, ctx, im)
         phase(self.rule_stream, ctx, im)
         phase(self.boundary, ctx, im)
+
+    def search(self, ctx):
+        """an obligation or the correspondence broke and the run found no failing input yet: look for one on the
+        implementation with the same streams (oracle included) under three other seeds at quick size -- other cases, a
+        few minutes at most -- stopping at the first violation (the default, one rerun at thorough size, takes 10 min)"""
+        ctx.search_mode = True
+        seed0 = ctx.seed
+        try:
+            for k in (1, 2, 3):
+                ctx.seed = seed0 * 1000 + 7919 * k
+                self.run(ctx)
+                if ctx.violations:
+                    break
+        finally:
+            ctx.seed = seed0
 
     # -- the model's isspace table against CPython ------------------------------------------------
     def whitespace_table(self, ctx):
@@ -337,6 +368,8 @@ class C16(Check):
                               'group': i, 'words': words})
         self.check_selectors(ctx, im, cases)
         self.check_spec(ctx, im, cases)
+        self.check_text(ctx, im, cases)
+        self.check_attach(ctx, im, cases, rng)
         for c in cases:
             self.oracle_grammar(ctx, im, c)
         # pairwise invariance inside a group (same AST, different spelling)
@@ -406,6 +439,116 @@ class C16(Check):
             if f['COOKED'] != cooked:
                 ctx.disagree('Sel.cooked = Selector._prepare_tokens(tokens)', w, cooked, f['COOKED'])
             ctx.count('spec-checked')
+
+    def check_text(self, ctx, im, cases):
+        """text level (T16.4): the tokenizer model in front of the selector model.
+        `text`: for the written selector, `plainChain raw`; for plain ones `Sel.text` = the rendered text and the
+        tokens of the tokenizer model = `Sel.raw` (the instance of `tokenize_plain`);
+        `seltext`: for EVERY generated text (plain or not) the model pipeline text -> tokens -> selector gives the real
+        tokenizer's tokens and what `Selector` reports for the text."""
+        if not ctx.model_ok:
+            return
+        good = [c for c in cases if in_model_domain(c['toks']) and c.get('text') is not None]
+        lines = []
+        for c in good:
+            if c.get('words'):
+                lines.append('text %s %s' % (enc_ns(c['ns']), ' '.join(c['words'])))
+            lines.append('seltext %s %s' % (enc_ns(c['ns']), enc(c['text'])))
+        replies = iter(ctx.driver(lines))
+        for c in good:
+            w = dict(self.witness(c))
+            want_toks = enc_toks([(t[0], t[1]) for t in c['toks']])
+            if c.get('words'):
+                r = next(replies)
+                if not r.startswith('TEXT '):
+                    ctx.disagree('written-selector wire format (text)', w, None, r[:80])
+                else:
+                    head, parsed = r.split(' | ', 1)
+                    f = dict(x.split('=', 1) for x in head.split(' ')[1:])
+                    if f['plain'] == '1':
+                        ctx.count('text-plain')
+                        if f['T'] != enc(c['text']):
+                            ctx.disagree('Sel.text of a plain written selector = its rendered text', w, enc(c['text']), f['T'])
+                        if f['TOK'] != want_toks:
+                            ctx.disagree('tokenize_plain instance: tokenizer model on Sel.text = Sel.raw = real tokens',
+                                         w, want_toks, f['TOK'])
+                        if parsed != c['impl']:
+                            ctx.disagree('text_render instance: model pipeline on Sel.text = Selector(text)', w,
+                                         c['impl'], parsed)
+                    else:
+                        ctx.count('text-nonplain')
+                    ctx.case(key=('text', c['text'], tuple(sorted(c['ns'].items()))), nontrivial=len(c['toks']) >= 3,
+                             kind='text:plain' if f['plain'] == '1' else 'text:other-spelling',
+                             sample={'text': c['text']})
+            r = next(replies)
+            if not r.startswith('SELTEXT '):
+                ctx.disagree('seltext wire format', w, None, r[:80])
+                continue
+            head, parsed = r.split(' | ', 1)
+            f = dict(x.split('=', 1) for x in head.split(' ')[1:])
+            if f['TOK'] != want_toks:
+                ctx.disagree('tokenizer model on a selector text = real tokenizer', w, want_toks, f['TOK'])
+            elif parsed != c['impl']:
+                ctx.disagree('model pipeline text -> tokens -> selector = Selector(text)', w, c['impl'], parsed)
+            ctx.count('seltext-checked')
+
+    def check_attach(self, ctx, im, cases, rng):
+        """attachment (T16.5): a selector parsed with its namespaces and then put, inside a rule object, into a sheet
+        with the same / renamed / fewer / more @namespace declarations: the model's text under the sheet's effective
+        namespaces (`serItems view seq`) = `selectorText` of the attached selector; the specificity does not move."""
+        if not ctx.model_ok:
+            return
+        css = im.css
+        lines, meta = [], []
+        for c in cases:
+            if not in_model_domain(c['toks']) or not c['impl'].startswith('OK'):
+                continue
+            if rng.random() > 0.35:
+                continue
+            ns = c['ns']
+            variant = rng.choice(['same', 'same', 'renamed', 'no-default', 'other-default', 'extra'])
+            if variant == 'same':
+                sns = dict(ns)
+            elif variant == 'renamed':
+                sns = {(('r' + p) if p else p): u for p, u in ns.items()}
+            elif variant == 'no-default':
+                sns = {p: u for p, u in ns.items() if p}
+            elif variant == 'other-default':
+                sns = dict(ns)
+                sns[''] = rng.choice(['urn:p', 'urn:x', ''])
+            else:
+                sns = dict(ns)
+                sns['z'] = rng.choice(['urn:p', 'urn:d', 'urn:z'])
+            try:
+                with time_limit(10):
+                    sheet = css.CSSStyleSheet()
+                    for p_, u_ in sns.items():
+                        sheet.namespaces[p_] = u_
+                    rule = css.CSSStyleRule()
+                    rule.selectorList.selectorText = (list(c['toks']), dict(ns))
+                    if len(rule.selectorList) != 1:
+                        continue
+                    sheet.insertRule(rule)
+                    sel = sheet.cssRules[-1].selectorList[0]
+                    view = dict(sheet.namespaces.namespaces)
+                    got = 'ATT %d %d %d T=%s' % (sel.specificity[1], sel.specificity[2], sel.specificity[3],
+                                                 enc(sel.selectorText))
+            except Exception as e:                      # noqa: BLE001
+                ctx.count('attach-impl-raised:' + type(e).__name__)
+                continue
+            lines.append('attach %s %s %s' % (enc_ns(ns), enc_ns(view), enc_toks(c['toks'])))
+            meta.append((c, variant, sns, got))
+        for (c, variant, sns, got), r in zip(meta, ctx.driver(lines) if lines else []):
+            ctx.case(key=('attach', c['text'], variant, tuple(sorted(sns.items()))), nontrivial=bool(c['ns']) or bool(sns),
+                     kind='attach:' + variant, sample={'text': c['text'], 'ns': c['ns'], 'sheet_ns': sns, 'impl': got[:120]})
+            if r != got:
+                ctx.disagree('selector attached to a sheet (text under the sheet\'s namespaces, specificity)',
+                             dict(self.witness(c), sheet_ns=sns), got, r)
+            sp = c['obj'].specificity
+            if got.split(' ')[1:4] != [str(sp[1]), str(sp[2]), str(sp[3])]:
+                ctx.violate('attaching the selector to a style sheet does not change its specificity',
+                            dict(self.witness(c), sheet_ns=sns), {'detached': sp, 'attached': got[:40]})
+            ctx.count('attach-checked')
 
     def oracle_grammar(self, ctx, im, c):
         """the generator knows specificity and structure by construction"""
